@@ -612,6 +612,10 @@ def check_case(col, inp, L, R, lp, rp, inidir, status_check="fast"):
                     if f["clause"] == "equal-but-entry" and f.get("identical"):
                         name = "key-sync-reflexivity-record-without-identity-field" if "missing" in idkey_issues \
                             else "key-sync-reflexivity-identity-value-duplicated"
+                    elif f["clause"] == "equal-but-entry" and idkey_issues == {"missing"}:
+                        # data-equal documents (order disregarded) whose only peculiarity is a record without the
+                        # identity field: such a record pairs with its identical twin, so no difference may show
+                        name = "key-sync-equal-data-record-without-identity-field"
                     else:
                         col.out_of_scope("key-sync-verdict-with-identity-field-%s" % what)
                         continue
